@@ -54,6 +54,9 @@ func declMatrix() []declCase {
 	add("enum info fields", "enum Status {\n  info color {\n    label = \"Color\"\n    description = \"the colour\"\n  }\n  option ACTIVE\n}\n")
 	add("enum option info", "enum Status {\n  option ACTIVE {\n    info.color = \"red\"\n  }\n}\n")
 	add("enum info fields and option info", "enum Status {\n  info color {\n    label = \"Color\"\n  }\n  info shape {\n    label = \"Shape\"\n  }\n  option ACTIVE {\n    info.color = \"red\"\n    info.shape = \"round\"\n  }\n  option INACTIVE {\n    info.color = \"blue\"\n  }\n}\n")
+	// a description on every kind of node that takes one (each becomes a SourceCodeInfo location of the generated file)
+	add("descriptions on every node kind", "object Foo {\n  | A foo\n  | second line\n\n  field name string | the name\n  field kind enum {\n    | inline kind\n    option A | option a\n    option B {\n      | option b\n    }\n  }\n  field inner object {\n    | inline inner\n    field x string | x of inner\n  }\n}\n\noneof Choice {\n  | A choice\n  option a object {\n    | option a\n    field y string | y of a\n  }\n}\n\nenum Status {\n  | A status\n  option ACTIVE | is active\n  option INACTIVE {\n    | is not\n  }\n}\n\nservice Foo {\n  | The foo service\n  basePath = \"/foo/v1\"\n  method GetFoo {\n    | gets a foo\n    httpMethod = \"GET\"\n    httpPath = \"/foo/:id\"\n    request {\n      field id string | the id\n    }\n    response {\n      field name string | the name\n    }\n  }\n}\n\ntopic Bar publish {\n  | The bar topic\n  message PostBar {\n    | posts a bar\n    field barId key:id62 | the bar\n  }\n}\n")
+	add("protobuf keywords as names", "object Message {\n  field package string\n  field option string\n  field import string\n  field syntax string\n  field message object {\n    field repeated bool\n    field optional string\n    field map map:string\n  }\n  field service enum {\n    option RPC\n    option STREAM\n    option RETURNS\n  }\n}\n\nenum Enum {\n  option MESSAGE\n  option ONEOF\n}\n\noneof Oneof {\n  option extend object {\n    field reserved string\n  }\n}\n")
 	add("object nested object", "object Foo {\n  field x string\n\n  object Bar {\n    field x string\n  }\n}\n")
 	add("README inline array example", "object Foo {\n  field bars array {\n    field barId key:id62\n  }\n}\n")
 	add("object inline named", "object Foo {\n  field bars array:object {\n    object.name = \"Bar\"\n    field barId key:id62\n  }\n}\n")
@@ -146,6 +149,26 @@ func declMatrix() []declCase {
 					impDir + "/types.j5s": "package " + imported + "\n\nobject Bar {\n  field x string\n}\n\noneof Choice {\n  option a object {\n    field y string\n  }\n}\n\nenum Kind {\n  option A\n  option B\n}\n",
 				}})
 			}
+		}
+	}
+	// one source whose generated files (main, service sub-package, topic sub-package) ALL refer to the same types of another
+	// package: every generated file needs the import of its own (the three file contexts share one root context)
+	{
+		bazTypes := "package baz.v1\n\nobject Bar {\n  field x string\n}\n\noneof Choice {\n  option a object {\n    field y string\n  }\n}\n\nenum Kind {\n  option A\n  option B\n}\n"
+		obj := "object Foo {\n  field bar object:%[1]s.Bar\n  field kind enum:%[1]s.Kind\n}\n\n"
+		svc := "service FooService {\n  basePath = \"/foo/v1\"\n  method GetFoo {\n    httpMethod = \"POST\"\n    httpPath = \"/foo\"\n    request {\n      field bar object:%[1]s.Bar\n      field choice oneof:%[1]s.Choice\n    }\n    response {\n      field bars array:object:%[1]s.Bar\n      field kind enum:%[1]s.Kind {\n        rules.in = [\"B\"]\n      }\n    }\n  }\n}\n\n"
+		top := "topic FooTopic publish {\n  message PostFoo {\n    field bar object:%[1]s.Bar\n    field kind enum:%[1]s.Kind\n  }\n}\n\n"
+		for _, v := range []struct{ name, imp, pre, body string }{
+			{"main, service and topic", "import baz.v1:baz", "baz", obj + svc + top},
+			{"service and topic only", "import baz.v1:baz", "baz", svc + top},
+			{"topic before service before main", "import baz.v1:other", "other", top + svc + obj},
+			{"main and topic, by package name", "import baz.v1", "baz", obj + top},
+			{"main and service, fully qualified", "import baz.v1", "baz.v1", obj + svc},
+		} {
+			out = append(out, declCase{Name: "imported types used in " + v.name + " of one source", Pkg: "foo.v1", Main: mainFile, Files: map[string]string{
+				mainFile:          "package foo.v1\n\n" + v.imp + "\n\n" + strings.ReplaceAll(v.body, "%[1]s", v.pre),
+				"baz/v1/types.j5s": bazTypes,
+			}})
 		}
 	}
 	out = append(out, declCase{Name: "import proto file", Pkg: "foo.v1", Main: mainFile, Files: map[string]string{
